@@ -50,16 +50,73 @@ Proof.
   apply bucket_cmp_eq in E. rewrite !N.leb_le. intros H1 H2. destruct x, y; cbn [fst snd] in *. f_equal; [lia | exact E].
 Qed.
 
-Lemma isort_labels_perm_invariant e (l l' : list (N * list bytes)) :
-  NoDup (map fst l) -> Permutation l l' ->
-  isort (match e with BE => label_leb_be | LE => label_leb_le end) l =
-  isort (match e with BE => label_leb_be | LE => label_leb_le end) l'.
+(* ---- the keyed order: label_leb_be on (address, keys of the names) ---- *)
+Definition keyed (kf : name_key) (x : N * list bytes) : N * list bytes := (fst x, map kf (snd x)).
+Lemma label_leb_be_k_total kf x y : label_leb_be_k kf x y = true \/ label_leb_be_k kf y x = true.
+Proof. apply label_leb_be_total. Qed.
+Lemma label_leb_be_k_trans kf x y z :
+  label_leb_be_k kf x y = true -> label_leb_be_k kf y z = true -> label_leb_be_k kf x z = true.
+Proof. apply label_leb_be_trans. Qed.
+(* two entries that the keyed order cannot tell apart have the same address and the same keys *)
+Lemma label_leb_be_k_antisym kf x y :
+  label_leb_be_k kf x y = true -> label_leb_be_k kf y x = true -> fst x = fst y /\ map kf (snd x) = map kf (snd y).
 Proof.
-  intros Hnd Hp. destruct e.
-  - apply (isort_key_perm_invariant l l' Hnd Hp).
-  - apply isort_perm_invariant; [apply label_leb_be_total | apply label_leb_be_trans | | exact Hp].
-    intros x y _ _. apply label_leb_be_antisym.
+  intros H1 H2. pose proof (label_leb_be_antisym _ _ H1 H2) as E. inversion E. split; reflexivity.
 Qed.
+
+(* the key function is injective on the names of a label table (the library's decoder is, on lossless names) *)
+Definition key_injective_on (kf : name_key) (names : list bytes) : Prop :=
+  forall n n', In n names -> In n' names -> kf n = kf n' -> n = n'.
+Definition label_names_of (l : list (N * list bytes)) : list bytes := concat (map snd l).
+Lemma map_key_inj kf names : key_injective_on kf names ->
+  forall b b', incl b names -> incl b' names -> map kf b = map kf b' -> b = b'.
+Proof.
+  intros Hinj. induction b as [|x b IH]; intros [|y b'] I1 I2 E; cbn [map] in E; try discriminate; [reflexivity|].
+  inversion E as [[E1 E2]]. f_equal.
+  - apply Hinj; [apply I1; left; reflexivity | apply I2; left; reflexivity | exact E1].
+  - apply IH; [intros z Hz; apply I1; right; exact Hz | intros z Hz; apply I2; right; exact Hz | exact E2].
+Qed.
+Lemma bucket_incl_names (l : list (N * list bytes)) x : In x l -> incl (snd x) (label_names_of l).
+Proof. intros Hx z Hz. unfold label_names_of. apply in_concat. exists (snd x). split; [apply in_map; exact Hx | exact Hz]. Qed.
+
+(* the sort of the label table does not depend on the order of its input: for EVERY key function when the
+   addresses are distinct (they are the keys of a map), and for an injective key function in any case *)
+Lemma isort_labels_perm_invariant kf e (l l' : list (N * list bytes)) :
+  NoDup (map fst l) -> Permutation l l' -> isort (label_leb kf e) l = isort (label_leb kf e) l'.
+Proof.
+  intros Hnd Hp. destruct e; unfold label_leb.
+  - apply (isort_key_perm_invariant l l' Hnd Hp).
+  - apply isort_perm_invariant; [apply label_leb_be_k_total | apply label_leb_be_k_trans | | exact Hp].
+    intros x y Hx Hy H1 H2. apply (nodup_fst_inj l); auto. apply (label_leb_be_k_antisym kf x y H1 H2).
+Qed.
+(* the weakest condition: no two entries of the table share address AND keys *)
+Definition keys_separate (kf : name_key) (l : list (N * list bytes)) : Prop :=
+  forall x y, In x l -> In y l -> fst x = fst y -> map kf (snd x) = map kf (snd y) -> x = y.
+Lemma keys_separate_nodup kf l : NoDup (map fst l) -> keys_separate kf l.
+Proof. intros Hnd x y Hx Hy E _. apply (nodup_fst_inj l); assumption. Qed.
+Lemma keys_separate_inj kf l : key_injective_on kf (label_names_of l) -> keys_separate kf l.
+Proof.
+  intros Hinj [k b] [k' b'] Hx Hy E1 E2. cbn [fst snd] in *. f_equal; [exact E1|].
+  apply (map_key_inj kf _ Hinj); [apply (bucket_incl_names l (k, b) Hx) | apply (bucket_incl_names l (k', b') Hy) | exact E2].
+Qed.
+Lemma isort_labels_be_perm_invariant_sep kf (l l' : list (N * list bytes)) :
+  keys_separate kf l -> Permutation l l' -> isort (label_leb_be_k kf) l = isort (label_leb_be_k kf) l'.
+Proof.
+  intros Hsep Hp.
+  apply isort_perm_invariant; [apply label_leb_be_k_total | apply label_leb_be_k_trans | | exact Hp].
+  intros x y Hx Hy H1 H2. destruct (label_leb_be_k_antisym kf x y H1 H2) as [E1 E2]. apply Hsep; assumption.
+Qed.
+Lemma isort_labels_be_perm_invariant_inj kf (l l' : list (N * list bytes)) :
+  key_injective_on kf (label_names_of l) -> Permutation l l' ->
+  isort (label_leb_be_k kf) l = isort (label_leb_be_k kf) l'.
+Proof. intros Hinj. apply isort_labels_be_perm_invariant_sep, keys_separate_inj, Hinj. Qed.
+
+(* a little-endian image does not depend on the key function *)
+Lemma serialize_k_LE kf kf' m a : a_endian a = LE -> serialize_k kf m a = serialize_k kf' m a.
+Proof. intros E. unfold serialize_k. rewrite E. reflexivity. Qed.
+(* with the encoded bytes as keys the keyed order is the byte order of the names *)
+Lemma label_leb_be_key_bytes x y : label_leb_be_k key_bytes x y = label_leb_be x y.
+Proof. unfold label_leb_be_k, key_bytes. rewrite !map_id. destruct x, y; reflexivity. Qed.
 
 Definition cs_leb (x y : bytes * list N) : bool := bytes_leb (fst x) (fst y).
 Lemma isort_cstrs_perm_invariant (l l' : list (bytes * list N)) :
@@ -91,13 +148,13 @@ Proof.
   destruct (add_text p s) as [p' off]. rewrite IH. rewrite map_app, map_map. cbn [fst]. rewrite map_id, <- app_assoc. reflexivity.
 Qed.
 
-Theorem serialize_order_independent m a a' :
+Theorem serialize_order_independent kf m a a' :
   same_content a a' ->
   NoDup (map fst (a_text a)) -> NoDup (map fst (a_labels a)) -> NoDup (map fst (a_cstrs a)) ->
   NoDup (map fst (a_ptrs a) ++ concat (map snd (a_cstrs a))) ->
-  serialize m a = serialize m a'.
+  serialize_k kf m a = serialize_k kf m a'.
 Proof.
-  intros (Hd & He & Pt & Pp & Pl & Pc) Nt Nl Nc Np. unfold serialize. unfold size. rewrite Hd, He.
+  intros (Hd & He & Pt & Pp & Pl & Pc) Nt Nl Nc Np. unfold serialize_k. unfold size. rewrite Hd, He.
   change (fun x y : bytes * list N => bytes_leb (fst x) (fst y)) with cs_leb.
   rewrite <- (isort_cstrs_perm_invariant (a_cstrs a) (a_cstrs a') Nc Pc).
   destruct (cstr_pool (lenN (a_data a)) (isort cs_leb (a_cstrs a)) pool_empty []) as [cpool cptrs] eqn:Ecp.
@@ -114,7 +171,7 @@ Proof.
     - rewrite !app_assoc. apply Permutation_app_tail, Permutation_app_comm.
     - etransitivity; eassumption. }
   rewrite Hptr.
-  rewrite <- (isort_labels_perm_invariant (a_endian a) (a_labels a) (a_labels a') Nl Pl).
+  rewrite <- (isort_labels_perm_invariant kf (a_endian a) (a_labels a) (a_labels a') Nl Pl).
   change (fun x y : N * bytes => fst x <=? fst y) with (@key_leb bytes).
   rewrite <- (isort_key_perm_invariant (a_text a) (a_text a') Nt Pt).
   rewrite <- (Permutation_length Pt).
@@ -155,8 +212,8 @@ Definition same_observations (a a' : archive) : Prop :=
 Definition maps_are_maps (a : archive) : Prop :=
   NoDup (map fst (a_text a)) /\ NoDup (map fst (a_ptrs a)) /\ NoDup (map fst (a_labels a)).
 
-Theorem serialize_deterministic m a a' :
-  maps_are_maps a -> maps_are_maps a' -> same_observations a a' -> serialize m a = serialize m a'.
+Theorem serialize_deterministic kf m a a' :
+  maps_are_maps a -> maps_are_maps a' -> same_observations a a' -> serialize_k kf m a = serialize_k kf m a'.
 Proof.
   intros (T1 & P1 & L1) (T2 & P2 & L2) (Hd & He & C1 & C2 & Gt & Gp & Gl).
   apply serialize_order_independent; try assumption.
